@@ -27,18 +27,17 @@ import (
 const PROP = "X06"
 
 type stepT struct {
-	A    string   `json:"a"`
-	T    string   `json:"t,omitempty"`
-	Ch   []string `json:"ch,omitempty"`
-	Via  string   `json:"via,omitempty"`
-	Cn   bool     `json:"cn,omitempty"`
-	E    string   `json:"e,omitempty"`
-	O    string   `json:"o,omitempty"`
-	Res  string   `json:"res,omitempty"`
-	At   string   `json:"at,omitempty"`
-	Pc   string   `json:"pc,omitempty"`
-	Req  []string `json:"req,omitempty"`
-	Conn string   `json:"c,omitempty"`
+	A   string   `json:"a"`
+	T   string   `json:"t,omitempty"`
+	Ch  []string `json:"ch,omitempty"`
+	Via string   `json:"via,omitempty"`
+	Cn  bool     `json:"cn,omitempty"`
+	E   string   `json:"e,omitempty"`
+	O   string   `json:"o,omitempty"`
+	Res string   `json:"res,omitempty"`
+	At  string   `json:"at,omitempty"`
+	Pc  string   `json:"pc,omitempty"`
+	Req []string `json:"req,omitempty"`
 }
 
 type scriptT struct {
@@ -49,13 +48,13 @@ type scriptT struct {
 	InitSrv map[string]string `json:"initsrv"`
 	InitDl  string            `json:"initdl"`
 	Trusted []string          `json:"trusted"`
-	Conns   []string          `json:"conns"` // connections that are live from the start (registered without validation)
 }
 
 type inputT struct {
 	Catalogue catalogue `json:"catalogue"`
 	Scripts   []scriptT `json:"scripts"`
 	Sabotage  string    `json:"sabotage"`
+	Stress    int       `json:"stress"`
 }
 
 type violation struct {
@@ -78,6 +77,7 @@ type resultT struct {
 	Downloads   int              `json:"downloads"`
 	Verdicts    map[string]int   `json:"verdicts"`
 	Notes       []string         `json:"notes,omitempty"`
+	Stress      map[string]int   `json:"stress,omitempty"`
 }
 
 type thread struct {
@@ -118,6 +118,7 @@ type runner struct {
 	stepNo   int
 	notified int
 	wasLive  map[string]bool // connections that were open before the current step
+	looping  bool
 }
 
 func (r *runner) violate(kind, site, detail string) {
@@ -164,7 +165,9 @@ func has(l []string, s string) bool {
 	return false
 }
 
-func (r *runner) goodFor(e string, o crlObj) bool { return o.Kind == "good" && o.Iss == r.w.epIssuer[e] }
+func (r *runner) goodFor(e string, o crlObj) bool {
+	return o.Kind == "good" && o.Iss == r.w.epIssuer[e]
+}
 
 func newRunner(w *world, sc scriptT, sabot string) (*runner, func(), error) {
 	e := &env{w: w, g: newGates(), srv: map[string]string{}, actor: map[int64]string{}, free: map[int64]bool{}, sabot: sabot}
@@ -179,6 +182,9 @@ func newRunner(w *world, sc scriptT, sabot string) (*runner, func(), error) {
 	restore2 := ngrpc.VerifX06SetNow(e.clock)
 	cleanup := func() {
 		e.g.drainAll()
+		if r.looping && r.engine != nil {
+			_ = r.engine.Shutdown()
+		}
 		if r.syncDone != nil {
 			select {
 			case <-r.syncDone:
@@ -241,9 +247,6 @@ func newRunner(w *world, sc scriptT, sabot string) (*runner, func(), error) {
 	r.tlsCfg, err = ngrpc.NewClientTLSConfig(&tls.Certificate{}, ts.CertPool, r.engine)
 	if err != nil {
 		return r, cleanup, err
-	}
-	for _, c := range sc.Conns {
-		r.addConn(c)
 	}
 	return r, cleanup, nil
 }
@@ -330,21 +333,6 @@ func (r *runner) projection() (crls []string, dl string, stored map[string]strin
 		}
 		stored[key] = id
 		crls = append(crls, key+"="+iss+"/"+id)
-		// the index of revoked serials must be the one of the stored list
-		if o, ok := r.w.crlByID[id]; ok {
-			want := map[string]bool{}
-			for _, x := range o.Rev {
-				want[fmt.Sprint(serials[x])] = true
-			}
-			if len(want) != len(c.Revoked) {
-				r.violate("revoked-index-differs-from-list", "crl", fmt.Sprintf("endpoint %s stores %s, index %v", key, id, c.Revoked))
-			}
-			for _, s := range c.Revoked {
-				if !want[s] {
-					r.violate("revoked-index-differs-from-list", "crl", fmt.Sprintf("endpoint %s stores %s, index %v", key, id, c.Revoked))
-				}
-			}
-		}
 	}
 	sort.Strings(crls)
 	dl = "none"
@@ -377,6 +365,8 @@ func (r *runner) absorb(completedActor string) {
 		}
 	}
 	e.mu.Unlock()
+	// the lists first (downloads made by the revalidation inside Update belong to the same step), then the denylist
+	sort.SliceStable(fresh, func(i, j int) bool { return fresh[i].Key != "dl" && fresh[j].Key == "dl" })
 	for _, d := range fresh {
 		r.res.Downloads++
 		if d.Key == "dl" {
@@ -569,9 +559,6 @@ func (r *runner) step(i int, s stepT) error {
 		e.mu.Unlock()
 		r.others("")
 		r.event("tick", nil)
-	case "Connect": // a connection that exists without a validation in this script (established earlier)
-		r.addConn(s.Conn)
-		r.event("connect", map[string]any{"c": s.Conn})
 	case "VBegin":
 		if t := r.threads[s.T]; t != nil && t.active && !t.done {
 			r.drift("VBegin(%s): the previous validation of this goroutine has not returned", s.T)
@@ -697,10 +684,19 @@ func (r *runner) step(i int, s stepT) error {
 		r.syncDone = make(chan struct{})
 		r.syncing = true
 		done := r.syncDone
-		go func() {
-			pki.VerifX06Sync(r.engine)
+		if s.Via == "loop" {
+			// the round is the first one of the real sync loop (PKI.Start); SyncEnd stops the loop again (PKI.Shutdown)
+			r.looping = true
 			close(done)
-		}()
+			if err := r.engine.Start(); err != nil {
+				return err
+			}
+		} else {
+			go func() {
+				pki.VerifX06Sync(r.engine)
+				close(done)
+			}()
+		}
 		if err := settle(giveUp); err != nil {
 			return err
 		}
@@ -837,6 +833,20 @@ func (r *runner) endSync(scripted bool) error {
 	case <-r.syncDone:
 	case <-time.After(giveUp):
 		return errors.New("sync() does not return although all its downloads have ended")
+	}
+	if r.looping {
+		r.looping = false
+		if err := r.engine.Shutdown(); err != nil {
+			return err
+		}
+		if err := settle(giveUp); err != nil {
+			return err
+		}
+		for a, p := range r.e.g.blocked() {
+			if strings.HasPrefix(a, "S:") {
+				r.drift("the stopped sync loop asks again: %s at %s", a, p)
+			}
+		}
 	}
 	r.syncing = false
 	r.checkState()
@@ -1128,6 +1138,12 @@ func TestDriver(t *testing.T) {
 	defer out.Close()
 	bw := bufio.NewWriter(out)
 	defer bw.Flush()
+	if in.Stress > 0 {
+		b, _ := json.Marshal(runStress(w, in.Stress))
+		bw.Write(b)
+		bw.WriteString("\n")
+		bw.Flush()
+	}
 	wedged := ""
 	for _, sc := range in.Scripts {
 		var res resultT
